@@ -102,10 +102,17 @@ func (pw *procWorld) output(id uuid.UUID, task, stream string) ([]byte, error) {
 }
 
 type procxResult struct {
+	Caps            []string // inconclusive cases (a wall-clock wait ran out): never a verdict
 	Cases, Distinct int
 	Viol            []Violation
 	Samples         []string
 	prop            string
+}
+
+func (r *procxResult) inconclusive(msg string) {
+	if len(r.Caps) < 10 {
+		r.Caps = append(r.Caps, msg)
+	}
 }
 
 func (r *procxResult) add(norm, msg string) {
@@ -251,7 +258,11 @@ func runC18() procxResult {
 	for job, j := range []*prunner.PipelineJob{j1, j2} {
 		v, ok := pw.wait(j.ID, 60*time.Second)
 		if !ok || v.LastError != "" {
-			res.add("job-did-not-finish", fmt.Sprintf("environment job %d did not finish cleanly: done=%v err=%q tasks=%+v", job, ok, v.LastError, v.Tasks))
+			if !ok {
+				res.inconclusive(fmt.Sprintf("environment job %d did not finish within 60s", job))
+			} else {
+				res.add("job-did-not-finish", fmt.Sprintf("environment job %d did not finish cleanly: err=%q tasks=%+v", job, v.LastError, v.Tasks))
+			}
 			continue
 		}
 		outT, _ := pw.output(j.ID, "t", "stdout")
@@ -295,7 +306,11 @@ func runC18() procxResult {
 		vars := []map[string]interface{}{varsA, varsB}[k]
 		v, ok := pw.wait(tj.ID, 30*time.Second)
 		if !ok || v.LastError != "" {
-			res.add("template-job-did-not-finish", fmt.Sprintf("template job did not finish cleanly: %v %q", ok, v.LastError))
+			if !ok {
+				res.inconclusive("template job did not finish within 30s")
+			} else {
+				res.add("template-job-did-not-finish", fmt.Sprintf("template job did not finish cleanly: %q", v.LastError))
+			}
 			continue
 		}
 		out, _ := pw.output(tj.ID, "a", "stdout")
@@ -556,7 +571,7 @@ func runC19(tier string, part, parts int) procxResult {
 			j := started[fmt.Sprintf("j%d_%d", ji, cp)]
 			v, ok := pw.wait(j.ID, 120*time.Second)
 			if !ok {
-				res.add("job-did-not-finish", fmt.Sprintf("output job %d/%d did not finish", ji, cp))
+				res.inconclusive(fmt.Sprintf("output job %d/%d did not finish within 120s", ji, cp))
 				continue
 			}
 			hasFail := false
@@ -868,7 +883,7 @@ func runC20(tier string, part, parts int) procxResult {
 					time.Sleep(2 * time.Millisecond)
 				}
 				if !ok {
-					res.add("tree-did-not-start:"+sh.name, fmt.Sprintf("%s: the expected %d leaf processes did not appear: %v", desc, sh.leaves, procsWithMarker(marker)))
+					res.inconclusive(fmt.Sprintf("%s: the expected %d leaf processes did not appear within 10s: %v", desc, sh.leaves, procsWithMarker(marker)))
 				}
 			}
 			t0 := time.Now()
@@ -1039,9 +1054,9 @@ func runRealFailures(prop string) procxResult {
 				res.Cases++
 				res.Distinct++
 				desc := fmt.Sprintf("task f runs %q (allow_failure=%v, continue_running_tasks_after_failure=%v)", script, allow, cont)
-				cls := k.n + fmt.Sprintf("/allow=%v/continue=%v", allow, cont)
+				_ = k.n
 				if !ok {
-					res.add("job-did-not-finish:"+cls, desc+": the job did not finish")
+					res.inconclusive(desc + ": the job did not finish within 30s")
 					pw.close()
 					continue
 				}
@@ -1108,6 +1123,10 @@ func runProcxUnit(u Unit) UnitResult {
 	res.Samples = r.Samples
 	for _, v := range r.Viol {
 		res.Viol = append(res.Viol, FoundViolation{Violation: v, Scenario: u.Name})
+	}
+	if len(r.Caps) > 0 {
+		res.Exhaustive = false
+		res.Caps = append(res.Caps, r.Caps...)
 	}
 	if vsched.RaceBuild {
 		// free-running under the race detector: report races between production code only
